@@ -13,7 +13,7 @@ if ! cargo +nightly fuzz build "$T" >"$WORK/build.log" 2>&1; then echo "INCONCLU
 # start corpus: bundled files (large ones cut), generated documents, the committed reproductions, an empty input
 for f in /repo/resources/*; do head -c 8192 "$f" > "corpus/$T/res-$(basename "$f" | tr -c 'A-Za-z0-9._-' '_')"; done
 ../target/release/check gen-corpus "$PWD/corpus/$T" 200
-for id in "${IDS[@]}"; do for f in /verif/regress/$id/*.osu; do [ -f "$f" ] && cp "$f" "corpus/$T/regress-$id-$(basename "$f")"; done; done
+for id in "${IDS[@]}"; do for f in ${VERIF_ROOT:-/verif}/regress/$id/*.osu; do [ -f "$f" ] && cp "$f" "corpus/$T/regress-$id-$(basename "$f")"; done; done
 BIN="target/x86_64-unknown-linux-gnu/release/$T"
 START=$(date +%s)
 ( cd "$WORK" && "../../$BIN" "../../corpus/$T" -artifact_prefix="../../artifacts/$T/" -max_total_time="$SECS" -jobs=16 -workers=16 -max_len=8192 -len_control=0 -timeout=60 -rss_limit_mb=4096 -seed="$SEED" -print_final_stats=1 >"$WORK/driver.log" 2>&1 )
@@ -33,11 +33,11 @@ for a in "artifacts/$T"/*; do
       found=0
       for id in "${IDS[@]}"; do
         out=$(../target/release/check "$id" --replay "$PWD/$a" 2>&1); r=$?
-        if [ $r -eq 1 ]; then mkdir -p "/verif/replays/$id"; cp "$a" "/verif/replays/$id/fuzz-$(basename "$a").osu"; echo "VIOLATION property=$id replay=/verif/replays/$id/fuzz-$(basename "$a").osu"; echo "$out" | grep detail | head -3; found=1; rc=1; fi
+        if [ $r -eq 1 ]; then mkdir -p "${VERIF_ROOT:-/verif}/replays/$id"; cp "$a" "${VERIF_ROOT:-/verif}/replays/$id/fuzz-$(basename "$a").osu"; echo "VIOLATION property=$id replay=${VERIF_ROOT:-/verif}/replays/$id/fuzz-$(basename "$a").osu"; echo "$out" | grep detail | head -3; found=1; rc=1; fi
       done
       if [ $found -eq 0 ]; then
         if grep -l "AddressSanitizer" "$WORK"/fuzz-*.log >/dev/null 2>&1 && [ "$T" = "total" ]; then
-          mkdir -p /verif/replays/C01; cp "$a" "/verif/replays/C01/asan-$(basename "$a").osu"; echo "VIOLATION property=C01 replay=/verif/replays/C01/asan-$(basename "$a").osu"; echo "  detail: AddressSanitizer report in $WORK (memory error not visible to the plain oracle)"; rc=1
+          mkdir -p ${VERIF_ROOT:-/verif}/replays/C01; cp "$a" "${VERIF_ROOT:-/verif}/replays/C01/asan-$(basename "$a").osu"; echo "VIOLATION property=C01 replay=${VERIF_ROOT:-/verif}/replays/C01/asan-$(basename "$a").osu"; echo "  detail: AddressSanitizer report in $WORK (memory error not visible to the plain oracle)"; rc=1
         else
           echo "INCONCLUSIVE: fuzz artefact $a does not reproduce through the plain oracle"; [ $rc -eq 0 ] && rc=2
         fi
